@@ -23,7 +23,7 @@ MUTGEN = os.environ.get("MUTGEN_BIN", "/tmp/mutgen")
 
 def run(cmd, cwd=None, timeout=300):
     try:
-        p = subprocess.run(cmd, cwd=cwd, env=ENV, stdout=subprocess.PIPE, stderr=subprocess.STDOUT, text=True, timeout=timeout)
+        p = subprocess.run(cmd, cwd=cwd, env=ENV, stdout=subprocess.PIPE, stderr=subprocess.STDOUT, text=True, errors="replace", timeout=timeout)
         return p.returncode, p.stdout
     except subprocess.TimeoutExpired:
         return 124, "timeout"
